@@ -25,7 +25,7 @@ open TaskModel.Finger
 
 /-- the property, for a given wiring -/
 def C12_full (cfg : Cfg) : Prop :=
-  ∀ (H : Bytes → Bytes) (pr : Proj) (i : Nat) (m : Mode) (e : Env) (s : State),
+  ∀ (H : Hashes) (pr : Proj) (i : Nat) (m : Mode) (e : Env) (s : State),
     m.readOnly = true →
       (invoke cfg H pr i m e s).1 = s ∧ (invoke cfg H pr i m e s).2.ran = []
 
@@ -36,7 +36,7 @@ theorem C12_full_fixed : C12_full Cfg.fixed := by
 
 /-- **Continuation equivalence** `H;R;K ≈ H;K`: inserting a read-only invocation anywhere in a
 history changes neither the final state nor any other step's observation. -/
-theorem C12_continuation (H : Bytes → Bytes) (pr : Proj) (h k : List Step) (i : Nat) (m : Mode) (e : Env)
+theorem C12_continuation (H : Hashes) (pr : Proj) (h k : List Step) (i : Nat) (m : Mode) (e : Env)
     (s : State) (hm : m.readOnly = true) :
     let withR := runHist Cfg.fixed H pr (h ++ Step.inv i m e :: k) s
     let without := runHist Cfg.fixed H pr (h ++ k) s
@@ -50,7 +50,7 @@ theorem C12_continuation (H : Bytes → Bytes) (pr : Proj) (h k : List Step) (i 
 /-- **the marker of method timestamp** (as patched by TS1–TS3: created when absent, touched when
 the task is going to run, REMOVED by `OnError`): the read-only modes never create, touch or remove
 it — nor any checksum —, whatever the environment does (declined prompt, failing command). -/
-theorem C12_marker_untouched (H : Bytes → Bytes) (pr : Proj) (i : Nat) (m : Mode) (e : Env) (s : State)
+theorem C12_marker_untouched (H : Hashes) (pr : Proj) (i : Nat) (m : Mode) (e : Env) (s : State)
     (hm : m.readOnly = true) :
     (invoke Cfg.fixed H pr i m e s).1.marks = s.marks ∧ (invoke Cfg.fixed H pr i m e s).1.sums = s.sums := by
   rw [(C12_full_fixed H pr i m e s hm).1]
@@ -61,14 +61,14 @@ body leaves the state alone and runs nothing — where the non-dry body would ca
 declined, command failing) and ALSO where the dry body itself fails: a `task:` call whose
 precondition does not hold (`Cmd.blocked`), the one thing that fails although nothing is executed.
 It then reports `failed`, as the real `--dry` does, and that is all. -/
-theorem C12_dry_body_no_onError (H : Bytes → Bytes) (pr : Proj) (i : Nat) (t : Task) (e : Env) (s : State) :
+theorem C12_dry_body_no_onError (H : Hashes) (pr : Proj) (i : Nat) (t : Task) (e : Env) (s : State) :
     (runBody Cfg.fixed H pr i t true e s).1 = s ∧ (runBody Cfg.fixed H pr i t true e s).2.ran = [] ∧
     (runBody Cfg.fixed H pr i t true e s).2.exit = if t.cmds.any (fun c => c.blocked s.files) then .failed else .ok :=
   ⟨(runBody_dry Cfg.fixed H pr rfl rfl i t e s).1, (runBody_dry Cfg.fixed H pr rfl rfl i t e s).2,
    runBody_dry_exit Cfg.fixed H pr rfl rfl i t e s⟩
 
 /-- **a failing call under `--dry`** (TS4): the invocation exits `failed` — and changes nothing. -/
-theorem C12_dry_failing_call (H : Bytes → Bytes) (pr : Proj) {i : Nat} {t : Task} (ht : pr.tasks[i]? = some t)
+theorem C12_dry_failing_call (H : Hashes) (pr : Proj) {i : Nat} {t : Task} (ht : pr.tasks[i]? = some t)
     (e : Env) (s : State) (hno : (isUpToDate H pr t true e.now s).2 = false)
     (hb : t.cmds.any (fun c => c.blocked s.files) = true) :
     (invoke Cfg.fixed H pr i .dry e s).1 = s ∧ (invoke Cfg.fixed H pr i .dry e s).2.exit = .failed ∧
@@ -112,20 +112,20 @@ private def env (n : Nat) : Env := ⟨n, false, none, none⟩
 /-- defect 6 (F7): `--list --json` with non-dry checkers writes a checksum, and the next
 normal run skips a task that never ran. -/
 theorem C12_found_listjson_counterexample :
-    let r := invoke Cfg.found id prX 0 .listJson (env 10) s1
-    r.1 ≠ s1 ∧ (invoke Cfg.found id prX 0 .run (env 20) r.1).2.skipped = true ∧
-      (invoke Cfg.found id prX 0 .run (env 20) s1).2.skipped = false := by decide
+    let r := invoke Cfg.found hId prX 0 .listJson (env 10) s1
+    r.1 ≠ s1 ∧ (invoke Cfg.found hId prX 0 .run (env 20) r.1).2.skipped = true ∧
+      (invoke Cfg.found hId prX 0 .run (env 20) s1).2.skipped = false := by decide
 
 /-- defect 16 (F11): `--dry` creates the missing `dir:`. -/
 theorem C12_found_dry_mkdir_counterexample :
-    (invoke Cfg.found id prD 0 .dry (env 10) State.empty).1 ≠ State.empty := by decide
+    (invoke Cfg.found hId prD 0 .dry (env 10) State.empty).1 ≠ State.empty := by decide
 
 /- a task with a stored checksum whose second command is a `task:` call with precondition `test -f 1` -/
 private def tC : Task := { tX with cmds := [⟨[], none⟩, ⟨[], some 1⟩] }
 private def prC : Proj := { prX with base := [(0, [97]), (1, [98])], tasks := [tC] }
 private def sC : State :=   -- after a successful run with file 1 present: file 1 removed, source edited
   applyOp prC (.write 0 [2] 7) (applyOp prC (.delete 1)
-    (invoke Cfg.fixed id prC 0 .run ⟨10, true, none, none⟩ { State.empty with files := [(0, ⟨[1], 5⟩), (1, ⟨[], 5⟩)] }).1)
+    (invoke Cfg.fixed hId prC 0 .run ⟨10, true, none, none⟩ { State.empty with files := [(0, ⟨[1], 5⟩), (1, ⟨[], 5⟩)] }).1)
 
 /-- (TS4) the rule before the fix, in isolation (`dryOnError := true`, the other two as repaired): the
 task ran once (checksum stored), the precondition's file is removed and a source edited; `--dry`
@@ -133,21 +133,21 @@ follows the call, the call fails, `statusOnError` DELETES the checksum although 
 With `Cfg.fixed` the same invocation reports `failed` and leaves the checksum where it was. -/
 theorem C12_dry_onError_counterexample :
     sC.sums ≠ [] ∧
-    (invoke { Cfg.fixed with dryOnError := true } id prC 0 .dry (env 20) sC).1.sums = [] ∧
-    (invoke { Cfg.fixed with dryOnError := true } id prC 0 .dry (env 20) sC).2.exit = .failed ∧
-    (invoke Cfg.fixed id prC 0 .dry (env 20) sC).1 = sC ∧ (invoke Cfg.fixed id prC 0 .dry (env 20) sC).2.exit = .failed ∧
-    (isUpToDate id prC tC true 20 sC).2 = false ∧ tC.cmds.any (fun c => c.blocked sC.files) = true := by decide
+    (invoke { Cfg.fixed with dryOnError := true } hId prC 0 .dry (env 20) sC).1.sums = [] ∧
+    (invoke { Cfg.fixed with dryOnError := true } hId prC 0 .dry (env 20) sC).2.exit = .failed ∧
+    (invoke Cfg.fixed hId prC 0 .dry (env 20) sC).1 = sC ∧ (invoke Cfg.fixed hId prC 0 .dry (env 20) sC).2.exit = .failed ∧
+    (isUpToDate hId prC tC true 20 sC).2 = false ∧ tC.cmds.any (fun c => c.blocked sC.files) = true := by decide
 
 theorem C12_full_found_false : ¬ C12_full Cfg.found := by
   intro h
-  exact C12_found_dry_mkdir_counterexample (h id prD 0 .dry (env 10) State.empty rfl).1
+  exact C12_found_dry_mkdir_counterexample (h hId prD 0 .dry (env 10) State.empty rfl).1
 
 /-- non-vacuity: on the same witnesses the repaired wiring leaves the state alone, and the
 read-only modes are exercised on a state where a normal run would do something. -/
-example : (invoke Cfg.fixed id prX 0 .listJson (env 10) s1).1 = s1 ∧
-    (invoke Cfg.fixed id prD 0 .dry (env 10) State.empty).1 = State.empty ∧
-    (invoke Cfg.fixed id prX 0 .run (env 10) s1).1 ≠ s1 ∧
-    (invoke Cfg.fixed id prX 0 .run (env 10) s1).2.ran = [0] := by decide
+example : (invoke Cfg.fixed hId prX 0 .listJson (env 10) s1).1 = s1 ∧
+    (invoke Cfg.fixed hId prD 0 .dry (env 10) State.empty).1 = State.empty ∧
+    (invoke Cfg.fixed hId prX 0 .run (env 10) s1).1 ≠ s1 ∧
+    (invoke Cfg.fixed hId prX 0 .run (env 10) s1).2.ran = [0] := by decide
 
 /- method timestamp: a marker older than the source (3 < 5) -/
 private def tT : Task := { tX with method := .timestamp }
@@ -159,13 +159,13 @@ private def envF (n : Nat) : Env := ⟨n, true, some 0, none⟩
 when the command fails — REMOVES it; `--dry` (also with the failing command), `--status`,
 `--list --json`, `--list`, `--summary` leave it exactly as it was -/
 example :
-    (invoke Cfg.fixed id prT 0 .run (env 10) s1).1.marks = [(tsKey tT, 10)] ∧
-    (invoke Cfg.fixed id prT 0 .run ⟨10, true, none, none⟩ s3).1.marks = [(tsKey tT, 10)] ∧
-    (invoke Cfg.fixed id prT 0 .run (envF 10) s3).1.marks = [] ∧
-    (invoke Cfg.fixed id prT 0 .dry (env 10) s1).1 = s1 ∧
-    (invoke Cfg.fixed id prT 0 .dry (envF 10) s3).1 = s3 ∧ (invoke Cfg.fixed id prT 0 .dry (envF 10) s3).2.ran = [] ∧
-    (invoke Cfg.fixed id prT 0 .status (envF 10) s3).1 = s3 ∧ (invoke Cfg.fixed id prT 0 .listJson (envF 10) s3).1 = s3 ∧
-    (invoke Cfg.fixed id prT 0 .list (envF 10) s3).1 = s3 ∧ (invoke Cfg.fixed id prT 0 .summary (envF 10) s3).1 = s3 := by
+    (invoke Cfg.fixed hId prT 0 .run (env 10) s1).1.marks = [(tsKey tT, 10)] ∧
+    (invoke Cfg.fixed hId prT 0 .run ⟨10, true, none, none⟩ s3).1.marks = [(tsKey tT, 10)] ∧
+    (invoke Cfg.fixed hId prT 0 .run (envF 10) s3).1.marks = [] ∧
+    (invoke Cfg.fixed hId prT 0 .dry (env 10) s1).1 = s1 ∧
+    (invoke Cfg.fixed hId prT 0 .dry (envF 10) s3).1 = s3 ∧ (invoke Cfg.fixed hId prT 0 .dry (envF 10) s3).2.ran = [] ∧
+    (invoke Cfg.fixed hId prT 0 .status (envF 10) s3).1 = s3 ∧ (invoke Cfg.fixed hId prT 0 .listJson (envF 10) s3).1 = s3 ∧
+    (invoke Cfg.fixed hId prT 0 .list (envF 10) s3).1 = s3 ∧ (invoke Cfg.fixed hId prT 0 .summary (envF 10) s3).1 = s3 := by
   decide
 
 /-! ## Every writer of the module is accounted for
